@@ -54,7 +54,7 @@ var c19Menu = []c19Meta{
 	{"N-extra-field", []byte(`{"perm_channels":[` + c19Entry("channel-1") + `],"note":"x"}`)},
 	{"N-extra-field-in-entry", []byte(`{"perm_channels":[{"port_id":"transfer","channel_id":"channel-2","admin":"me"}]}`)},
 	{"A-duplicate-key", []byte(`{"perm_channels":[],"perm_channels":[` + c19Entry("channel-1") + `]}`)},
-	{"A-other-case-only", []byte(`{"Perm_Channels":[` + c19Entry("channel-1") + `]}`)},
+	{"N-other-case-only", []byte(`{"Perm_Channels":[` + c19Entry("channel-1") + `]}`)},
 	{"A-other-case-next-to-exact", []byte(`{"perm_channels":[],"PERM_CHANNELS":[` + c19Entry("channel-2") + `]}`)},
 	{"A-null-list", []byte(`{"perm_channels":null}`)},
 	{"A-entry-missing-channel-id", []byte(`{"perm_channels":[{"port_id":"transfer"}]}`)},
@@ -135,7 +135,18 @@ func c19Classify(md []byte) (class string, chans []string) {
 			return "N", nil
 		}
 	}
-	if len(keys) != 1 || keys[0] != "perm_channels" {
+	// without the documented key itself (only other spellings of it) the metadata is not the documented
+	// structure; the documented key next to other spellings or repeated stays A
+	exact := false
+	for _, k := range keys {
+		if k == "perm_channels" {
+			exact = true
+		}
+	}
+	if !exact {
+		return "N", nil
+	}
+	if len(keys) != 1 {
 		return "A", nil
 	}
 	if strings.TrimSpace(string(rawVals[0])) == "null" {
